@@ -262,16 +262,37 @@ func raggedTable(r *rng.R, ids func() string) *document.Table {
 		}
 		b.WriteString("</w:tblGrid>")
 	}
+	// vertical merges in the form Word writes them: the first cell says restart, the continuation cells carry a bare <w:vMerge/>
+	// (a missing val means continue); rows of such a table are rectangular so that the merged cells line up
+	vm := map[[2]int]string{}
+	if rows >= 2 && r.Chance(2, 5) {
+		for k := r.Range(1, 2); k > 0; k-- {
+			j := r.Intn(cols)
+			a := r.Intn(rows - 1)
+			e := r.Range(a+1, rows-1)
+			if _, taken := vm[[2]int{a, j}]; taken {
+				continue
+			}
+			form := "<w:vMerge/>"
+			if r.Chance(1, 4) {
+				form = "<w:vMerge w:val=\"continue\"/>"
+			}
+			vm[[2]int{a, j}] = "<w:vMerge w:val=\"restart\"/>"
+			for q := a + 1; q <= e; q++ {
+				vm[[2]int{q, j}] = form
+			}
+		}
+	}
 	for i := 0; i < rows; i++ {
 		b.WriteString("<w:tr>")
 		n := cols
-		if r.Chance(1, 3) {
+		if r.Chance(1, 3) && len(vm) == 0 {
 			n = r.Range(1, cols+1)
 		}
 		left := cols
 		for j := 0; j < n; j++ {
 			span := 1
-			if r.Chance(1, 5) && left > 1 {
+			if r.Chance(1, 5) && left > 1 && len(vm) == 0 {
 				span = r.Range(2, left)
 			}
 			left -= span
@@ -279,6 +300,7 @@ func raggedTable(r *rng.R, ids func() string) *document.Table {
 			if span > 1 {
 				fmt.Fprintf(&b, "<w:gridSpan w:val=\"%d\"/>", span)
 			}
+			b.WriteString(vm[[2]int{i, j}])
 			b.WriteString("</w:tcPr><w:p><w:r><w:t>" + ids() + "</w:t></w:r></w:p>")
 			if r.Chance(1, 10) {
 				b.WriteString("<w:tbl><w:tr><w:tc><w:p><w:r><w:t>n</w:t></w:r></w:p></w:tc></w:tr></w:tbl><w:p/>")
